@@ -196,16 +196,29 @@ fn build_len_msg(lens: &[usize], id: [u8; 12]) -> stun_rs::StunMessage {
     b.build()
 }
 
-fn enc_record(lens: &[usize], buf: usize, prefill: u8, big: &Option<Vec<u8>>, id: [u8; 12]) -> Value {
+/// the three ways an application can obtain an encoder: without context, with the default context,
+/// with a custom padding byte (feature `experiments`)
+fn mk_encoder(ctx: u8) -> stun_rs::MessageEncoder {
+    use stun_rs::{EncoderContextBuilder, MessageEncoderBuilder, StunPadding};
+    match ctx {
+        1 => MessageEncoderBuilder::default().with_context(EncoderContextBuilder::default().build()).build(),
+        2 => MessageEncoderBuilder::default()
+            .with_context(EncoderContextBuilder::default().with_custom_padding(StunPadding::Custom(0xCC)).build())
+            .build(),
+        _ => MessageEncoderBuilder::default().build(),
+    }
+}
+
+fn enc_record(lens: &[usize], buf: usize, prefill: u8, big: &Option<Vec<u8>>, id: [u8; 12], ctx: u8) -> Value {
     let msg = build_len_msg(lens, id);
-    enc_record_msg(&msg, json!(lens), json!([]), false, buf, prefill, big, id)
+    enc_record_msg(&msg, json!(lens), json!([]), false, buf, prefill, big, id, ctx)
 }
 
 #[allow(clippy::too_many_arguments)]
 fn enc_record_msg(msg: &stun_rs::StunMessage, lens: Value, attrs: Value, use_attrs: bool, buf: usize, prefill: u8,
-                  big: &Option<Vec<u8>>, id: [u8; 12]) -> Value {
+                  big: &Option<Vec<u8>>, id: [u8; 12], ctx: u8) -> Value {
     let mut buffer = vec![prefill; buf];
-    let enc = stun_rs::MessageEncoderBuilder::default().build();
+    let enc = mk_encoder(ctx);
     let r = catch_unwind(AssertUnwindSafe(|| enc.encode(&mut buffer, &msg)));
     let (res, size, tail_ok, same) = match r {
         Err(_) => ("panic", -1i64, false, false),
@@ -220,7 +233,7 @@ fn enc_record_msg(msg: &stun_rs::StunMessage, lens: Value, attrs: Value, use_att
         }
     };
     json!({"op":"enc","lens":lens,"attrs":attrs,"use_attrs":use_attrs,"txid":bytes_json(&id),"buf":buf,
-           "prefill":prefill,"res":res,"size":size,"tail_ok":tail_ok,"same":same,"have_big":big.is_some()})
+           "ctx":ctx,"prefill":prefill,"res":res,"size":size,"tail_ok":tail_ok,"same":same,"have_big":big.is_some()})
 }
 
 /// message of zoo attributes (+ optional tail); returns the message and its logical description
@@ -251,11 +264,11 @@ fn zoo_msg(rng: &mut StdRng, id: [u8; 12]) -> Option<(stun_rs::StunMessage, Valu
 }
 
 /// reference encoding into a large, differently pre-filled buffer (None if that fails)
-fn big_encoding(lens: &[usize], id: [u8; 12]) -> Option<Vec<u8>> {
+fn big_encoding(lens: &[usize], id: [u8; 12], ctx: u8) -> Option<Vec<u8>> {
     let need: usize = 20 + lens.iter().map(|n| 4 + n + obs::pad(*n)).sum::<usize>();
     let msg = build_len_msg(lens, id);
     let mut buffer = vec![0x5Au8; need + 64];
-    let enc = stun_rs::MessageEncoderBuilder::default().build();
+    let enc = mk_encoder(ctx);
     match catch_unwind(AssertUnwindSafe(|| enc.encode(&mut buffer, &msg))) {
         Ok(Ok(sz)) if sz <= buffer.len() => Some(buffer[..sz].to_vec()),
         _ => None,
@@ -277,6 +290,7 @@ fn cmd_buffers(args: &[String]) {
     if !cases.is_empty() {
         let v: Value = serde_json::from_str(&std::fs::read_to_string(&cases).unwrap()).unwrap();
         for c in v["cases"].as_array().cloned().unwrap_or_default() {
+            let ctx = c["ctx"].as_u64().unwrap_or(0) as u8;
             if c["use_attrs"].as_bool().unwrap_or(false) {
                 use stun_rs::attributes::stun::{Fingerprint, MessageIntegrity, MessageIntegritySha256};
                 let key = HMACKey::new_short_term("buffers-key").unwrap();
@@ -292,21 +306,21 @@ fn cmd_buffers(args: &[String]) {
                     };
                 }
                 let msg = b.build();
-                let enc = stun_rs::MessageEncoderBuilder::default().build();
+                let enc = mk_encoder(ctx);
                 let mut bigbuf = vec![0x5Au8; 9000];
                 let big = match catch_unwind(AssertUnwindSafe(|| enc.encode(&mut bigbuf, &msg))) {
                     Ok(Ok(need)) => Some(bigbuf[..need].to_vec()),
                     _ => None,
                 };
                 let r = enc_record_msg(&msg, json!([]), c["attrs"].clone(), true, c["buf"].as_u64().unwrap() as usize,
-                                       c["prefill"].as_u64().unwrap_or(0) as u8, &big, id);
+                                       c["prefill"].as_u64().unwrap_or(0) as u8, &big, id, ctx);
                 writeln!(f, "{}", r).unwrap();
                 n += 1;
                 continue;
             }
             let lens: Vec<usize> = c["lens"].as_array().unwrap().iter().map(|x| x.as_u64().unwrap() as usize).collect();
-            let big = big_encoding(&lens, id);
-            let r = enc_record(&lens, c["buf"].as_u64().unwrap() as usize, c["prefill"].as_u64().unwrap_or(0) as u8, &big, id);
+            let big = big_encoding(&lens, id, ctx);
+            let r = enc_record(&lens, c["buf"].as_u64().unwrap() as usize, c["prefill"].as_u64().unwrap_or(0) as u8, &big, id, ctx);
             writeln!(f, "{}", r).unwrap();
             n += 1;
         }
@@ -319,11 +333,12 @@ fn cmd_buffers(args: &[String]) {
         let na = rng.random_range(0..=5usize);
         let lens: Vec<usize> = (0..na).map(|_| *[0usize, 1, 2, 3, 4, 5, 7, 8, 13, 20, 33, 64, 100][rng.random_range(0..13)..].first().unwrap()).collect();
         let need: usize = 20 + lens.iter().map(|n| 4 + n + obs::pad(*n)).sum::<usize>();
-        let big = big_encoding(&lens, id);
+        let ctx = (nmsg % 3) as u8;
+        let big = big_encoding(&lens, id, ctx);
         nmsg += 1;
         for buf in 0..=need + 8 {
             for prefill in [0x00u8, 0xFF, rng.random()] {
-                writeln!(f, "{}", enc_record(&lens, buf, prefill, &big, id)).unwrap();
+                writeln!(f, "{}", enc_record(&lens, buf, prefill, &big, id, ctx)).unwrap();
                 n += 1;
             }
         }
@@ -331,7 +346,8 @@ fn cmd_buffers(args: &[String]) {
     // messages made of every attribute kind (nested encoders, inner padding, post-encode hooks)
     for _ in 0..small {
         let Some((msg, logical)) = zoo_msg(&mut rng, id) else { continue };
-        let enc = stun_rs::MessageEncoderBuilder::default().build();
+        let ctx = (nmsg % 3) as u8;
+        let enc = mk_encoder(ctx);
         let mut bigbuf = vec![0x5Au8; 9000];
         let Ok(Ok(need)) = catch_unwind(AssertUnwindSafe(|| enc.encode(&mut bigbuf, &msg))) else { continue };
         if need > 1500 { continue; }
@@ -339,7 +355,7 @@ fn cmd_buffers(args: &[String]) {
         nmsg += 1;
         for buf in (0..=need + 8).filter(|b| need < 200 || *b < 24 || *b + 12 >= need || b % 7 == 0) {
             for prefill in [0x00u8, 0xFF, rng.random()] {
-                writeln!(f, "{}", enc_record_msg(&msg, json!([]), logical.clone(), true, buf, prefill, &big, id)).unwrap();
+                writeln!(f, "{}", enc_record_msg(&msg, json!([]), logical.clone(), true, buf, prefill, &big, id, ctx)).unwrap();
                 n += 1;
             }
         }
@@ -353,6 +369,17 @@ fn cmd_buffers(args: &[String]) {
         vec![65500, 65500, 65500], vec![100000, 3], vec![4, 65504], vec![4, 65500], vec![4, 65496],
         vec![0, 65508], vec![65508, 0], vec![65504, 0, 0], vec![65480, 20, 5], vec![65480, 24, 4],
     ];
+    // bodies that reach the limit exactly (or come within a word of it) followed by value-less
+    // attributes: the 4 header bytes of each still count
+    for base in [65532usize, 65528, 65524] {
+        for zeros in 1..=3usize {
+            let mut l = vec![base - 4];
+            l.extend(std::iter::repeat(0).take(zeros));
+            larges.push(l.clone());
+            l.rotate_right(1);
+            larges.push(l);
+        }
+    }
     for _ in 0..large {
         // random split of a body size drawn around the limit
         let target = 65400 + rng.random_range(0..300usize);
@@ -361,10 +388,11 @@ fn cmd_buffers(args: &[String]) {
     }
     for lens in larges {
         let need: usize = 20 + lens.iter().map(|n| 4 + n + obs::pad(*n)).sum::<usize>();
-        let big = big_encoding(&lens, id);
+        let ctx = (nmsg % 3) as u8;
+        let big = big_encoding(&lens, id, ctx);
         nmsg += 1;
         for buf in [0usize, 19, 20, 24, need.saturating_sub(1), need, need + 1, need + 8, 65535, 65536, 65556, 70000, 300000] {
-            writeln!(f, "{}", enc_record(&lens, buf, 0xA5, &big, id)).unwrap();
+            writeln!(f, "{}", enc_record(&lens, buf, 0xA5, &big, id, ctx)).unwrap();
             n += 1;
         }
     }
